@@ -237,7 +237,11 @@ pub fn run_reserve(args: &[u64], out: &mut Out) {
     }
     let sched = &args[pos..];
     let mut world = World::new();
-    let hs: Vec<Entity> = (0..nfree + nlive).map(|_| world.spawn(())).collect();
+    // the ids on the free list belonged to entities WITH components (in two different archetypes), so a
+    // stale location left behind by despawn would show after the flush
+    let hs: Vec<Entity> = (0..nfree + nlive)
+        .map(|i| if i % 2 == 0 { world.spawn((i as u32, i as u64)) } else { world.spawn((i as u8,)) })
+        .collect();
     for h in &hs[..nfree] {
         world.despawn(*h).unwrap();
     }
@@ -355,6 +359,19 @@ pub fn run_reserve(args: &[u64], out: &mut Out) {
             out.flag(format!("C07: {:?} is not a live entity after the flush", h));
         }
     }
+    for h in all.iter() {
+        if let Ok(e) = world.entity(*h) {
+            if e.len() != 0 {
+                out.flag(format!("C07: reserved entity {:?} has {} components after the flush (it must be empty)", h, e.len()));
+            }
+        }
+    }
+    for (i, h) in hs.iter().enumerate().skip(nfree) {
+        let n = world.entity(*h).map(|e| e.len()).unwrap_or(99);
+        if n != if i % 2 == 0 { 2 } else { 1 } {
+            out.flag(format!("C07: previously live entity {:?} has {n} components after the reservations were flushed", h));
+        }
+    }
 }
 
 /// Engine 70: args = threads, reservations per thread, free-list size, seed. Real threads.
@@ -403,4 +420,58 @@ pub fn stress_reserve(args: &[u64], out: &mut Out) {
     if dups != 0 || notc != 0 || lenerr != 0 {
         out.flag(format!("C07: real threads: {dups} duplicate handles, {notc} not contained, len mismatch {lenerr}"));
     }
+}
+
+/// engine 17: worlds constructed concurrently must be distinguishable by a prepared query.
+/// `threads` threads build worlds in lock-step for `rounds` rounds; thread k's world gets one entity
+/// with component C1 (even k) or C2 (odd k), so all worlds have the same number of archetypes but
+/// different layouts.  One PreparedQuery is then moved between the worlds of each round; a stale
+/// cache (two worlds taken for the same one) shows up as a wrong count.  Supporting real-thread run.
+pub fn stress_world_ids(args: &[u64], out: &mut Out) {
+    use crate::comps::{Comp, C1, C2};
+    use hecs::{PreparedQuery, With, World};
+    let (threads, rounds) = ((args[0] as usize).clamp(2, 8), args[1] as usize);
+    let barrier = std::sync::Barrier::new(threads);
+    let mut per_thread: Vec<Vec<World>> = Vec::new();
+    std::thread::scope(|s| {
+        let mut js = Vec::new();
+        for k in 0..threads {
+            let barrier = &barrier;
+            js.push(s.spawn(move || {
+                let mut ws = Vec::with_capacity(rounds);
+                for _ in 0..rounds {
+                    barrier.wait();
+                    let mut w = World::new();
+                    if k % 2 == 0 {
+                        w.spawn((C1::new(1),));
+                    } else {
+                        w.spawn((C2::new(2),));
+                    }
+                    ws.push(w);
+                }
+                ws
+            }));
+        }
+        for j in js {
+            per_thread.push(j.join().unwrap());
+        }
+    });
+    let mut stale = 0u64;
+    let mut pq = PreparedQuery::<With<(), &C1>>::new();
+    for r in 0..rounds {
+        for k in 0..threads {
+            let expect = if k % 2 == 0 { 1 } else { 0 };
+            let got = pq.query(&per_thread[k][r]).iter().count();
+            if got != expect {
+                stale += 1;
+            }
+        }
+    }
+    out.push(stale);
+    if stale != 0 {
+        out.flag(format!("C17: a prepared query moved between concurrently constructed worlds returned {stale} stale results (world ids not unique?)"));
+    }
+    // the drop logs of the component types are thread local; forget what other threads' values log here
+    drop(per_thread);
+    let _ = crate::comps::drain_drops();
 }
